@@ -427,7 +427,7 @@ func Run(cs Case, c *vrt.Ctx) {
 	// start at or beyond the end to the last element where Get selects nothing (pinned by
 	// jp/locate_test.go). Attributed only when that reading gives exactly what they report.
 	var lastElem []string
-	lastElemRead := false
+	lastElemRead, lastElemOpen := false, false
 	if res.Feat["slice-negstep-start-beyond"] {
 		alt := jpx.EvalSliceHook(cs.Path, data, func(arr []any, s []int) ([]int, bool) {
 			start, end, step, size := 0, jpx.MaxEnd, 1, len(arr)
@@ -470,9 +470,12 @@ func Run(cs Case, c *vrt.Ctx) {
 			return idx, true
 		})
 		lastElem, lastElemRead = canonList(valuesOf(alt.Locs)), true
+		// read this way the path can reach what the statement leaves open (another open slice, a
+		// comparison of whole containers on user types): the emulation is not exact there
+		lastElemOpen = alt.DontCare != "" || (alt.Feat["compares-container"] && cs.Rep != "simple" && cs.Rep != "gen")
 	}
 	k2 := func(vals []string) []string {
-		if lastElemRead && sameMultiset(vals, lastElem) {
+		if lastElemRead && (lastElemOpen || sameMultiset(vals, lastElem)) {
 			return append(append([]string(nil), tags...), "explained-by-start-at-last-element")
 		}
 		return tags
